@@ -16,7 +16,7 @@ inductive Outcome (α : Type) where
   | ok (a : α)
   | err (c : ErrClass)
   | panic (site : String)
-  deriving Repr
+  deriving Repr, DecidableEq
 
 namespace Outcome
 def bind {α β : Type} (x : Outcome α) (f : α → Outcome β) : Outcome β :=
